@@ -71,6 +71,18 @@ Definition c02_discovery_roots_statement : Prop :=
     disc_scope2_b h = true ->
     c02_statement cfg LNone h.
 
+(* OUTSIDE the quantifier of C01 (c01_scope asks for hold-until-LIB when no LIB is configured): in the
+   pass-through mode (LNone, c_hold = false) the LIB id is empty, ReversibleSegment from a root reaches it,
+   the root IS delivered, and when it is fed again it is stored again unsent and delivered as New AGAIN.
+   So the restriction of c01_scope to c_hold = true is necessary as soon as histories contain roots: *)
+Definition c01_passthrough_roots_refuted : Prop :=
+  exists cfg h,
+    c_hold cfg = false /\ c_incl cfg = false /\ c_fail_at cfg = None /\
+    f_new (c_filter cfg) = true /\ f_undo (c_filter cfg) = true /\
+    wf_b h = true /\ lib_ok_b LNone h = true /\
+    let t := fk_run cfg (fs_init LNone) h in
+    c01_discipline_b LNone t = false /\ c01_refeed_b [] h t = false.
+
 (* What remains between these and c01_full / c02_full (Spec/C01_Spec.v, Spec/C02_Spec.v):
    - C01 outside the class lib_ok_b (c01_scope asks only wf_b); for LIBs that never move
      c01_fixed_lib_partial covers part of it;
